@@ -636,6 +636,15 @@ func runE2E(s *e2eScenario) (string, cf.Sidecar) {
 	firstPart := map[int64]int32{}
 	var hookFail *cf.Monitor
 	markerAccepted := false
+	// history of sequenced messages (idempotent producer), for the history class: see epochBumpInFlight
+	type seqEv struct {
+		kind   string
+		id     int64
+		hasSeq bool
+		fresh  bool
+		goid   int64
+	}
+	var seqEvs []seqEv
 	current := map[interface{}]*recvObs{} // per broker worker: the message it is handling
 	classify := func(h sarama.VerifC04Hook, obs int) {
 		for _, r := range current {
@@ -647,6 +656,11 @@ func runE2E(s *e2eScenario) (string, cf.Sidecar) {
 	observe := func(h sarama.VerifC04Hook) {
 		hmu.Lock()
 		defer hmu.Unlock()
+		if h.Kind == "pp.send" || h.Kind == "return.success" || h.Kind == "return.error" {
+			if id, ok := h.Msg.Metadata.(int64); ok {
+				seqEvs = append(seqEvs, seqEv{h.Kind, id, h.HasSeq, h.Retries == 0 && h.Flags == 0, h.Goid})
+			}
+		}
 		switch h.Kind {
 		case "bp.recv":
 			r := &recvObs{Flags: h.Flags, Closing: h.Closing, Retrying: h.Retrying, msg: h.Msg}
@@ -887,8 +901,52 @@ func runE2E(s *e2eScenario) (string, cf.Sidecar) {
 		return cf.App("mkECase", s.Cfg.coq(), "[]", "[]", "[]", "[]", zeroTime, "[]"), cf.Sidecar{Case: desc, Kind: "e2e-skipped", Nontrivial: false, Monitor: hookFail}
 	}
 
+	// History class (the predicate of C05's c05:epoch-bump:other-messages-in-flight, go/harness/internal/idembroker Classify):
+	// the error event of a sequenced message (returnError bumps the epoch, all sequence counters restart at 0) happened while
+	// another sequenced message was unresolved; messages failed by the same handler right after it do not count as others.
+	// In that class the pinned tree is known to report successes at offsets holding another message (recorded, unrepaired
+	// C05 defect): the failures get their own signature and the scenario is not compared with the model.
+	bumpInFlight := false
+	if s.Cfg.Idem {
+		live := map[int64]bool{}
+		for i, e := range seqEvs {
+			switch e.kind {
+			case "pp.send":
+				if e.fresh && e.hasSeq {
+					live[e.id] = true
+				}
+			case "return.success":
+				delete(live, e.id)
+			case "return.error":
+				delete(live, e.id)
+				if !e.hasSeq {
+					continue
+				}
+				same := map[int64]bool{}
+				for j := i + 1; j < len(seqEvs); j++ {
+					if seqEvs[j].goid != e.goid {
+						continue
+					}
+					if seqEvs[j].kind == "return.error" {
+						same[seqEvs[j].id] = true
+						continue
+					}
+					break
+				}
+				for id := range live {
+					if !same[id] {
+						bumpInFlight = true
+					}
+				}
+			}
+		}
+	}
+	desc["epoch_bump_in_flight"] = bumpInFlight
 	mon := hookFail
 	fail := func(sig, what string) {
+		if bumpInFlight && (strings.HasPrefix(sig, "e2e:") && sig != "e2e:library-panic" || sig == "wire:resend-differs") {
+			sig = "e2e:" + sig[strings.Index(sig, ":")+1:] + ":idempotent-epoch-bump-in-flight"
+		}
 		if mon == nil {
 			mon = &cf.Monitor{Signature: sig, What: what}
 		}
@@ -1044,12 +1102,15 @@ func runE2E(s *e2eScenario) (string, cf.Sidecar) {
 	for _, rp := range c.reqs {
 		reqTerms = append(reqTerms, cf.App("mkEReq", coqTpk(topicIndex(rp.Topic), rp.Partition), cf.Z(rp.Base), cf.Bool(rp.Appended), coqRecords(rp.Recs)))
 	}
+	if bumpInFlight {
+		succTerms = nil // outside the hypothesis (the model's broker and log are those of clean idempotent histories): not compared
+	}
 	term := cf.App("mkECase", s.Cfg.coq(), cf.List(msgTerms), cf.List(allTerms), cf.List(wrTerms), cf.List(reqTerms), coqTime(s.LAT), cf.List(succTerms))
 	kind := "e2e-async"
 	if s.Sync {
 		kind = "e2e-sync"
 	}
-	return term, cf.Sidecar{Case: desc, Kind: kind, Nontrivial: nsucc > 0, Monitor: mon}
+	return term, cf.Sidecar{Case: desc, Kind: kind, Nontrivial: nsucc > 0 && !bumpInFlight, Monitor: mon}
 }
 
 func closeWithTimeout(f func()) {
